@@ -11,7 +11,16 @@ ENTRY = dict(
          "70089, 70004 (thorough: 65535) bytes, session id 0/33/255/256, 0/255/256 compression methods, 0/32768 (thorough: 32767) "
          "cipher suites, 31-byte random, two padding extensions, no extensions; specs fingerprinted (Fingerprinter, both "
          "AllowBluntMimicry settings) from the library's own ClientHellos (quick: 12 fingerprints) and re-applied with another "
-         "server name; the four testdata/ClientHello-JSON-*.json specs; three (thorough: 12) UQUICClient hellos. Every produced "
+         "server name; the four testdata/ClientHello-JSON-*.json specs; three (thorough: 12) UQUICClient hellos; a GREASE matrix: specs with one "
+         "or two UtlsGREASEExtensions whose Value is unset / the placeholder / each of the 16 GREASE values (one explicit + one drawn, "
+         "both drawn, both explicit) under Config.Rand = 16 constant-byte readers (one per GREASE seed class), 3 counting readers "
+         "(thorough: + 40 seeded), about 2600 builds, all walked by the Go oracle and every 20th (and every rejected one) sent to the "
+         "Coq oracle; the generated custom specs likewise draw explicit GREASE values and constant / counting / seeded readers; the "
+         "SECOND ClientHello after a HelloRetryRequest (loopback TCP, scripted server sending a cookie and, when possible, a selected "
+         "group): custom TLS 1.3 specs ending in FakePreSharedKeyExtension (1 and 2 identities), in UtlsPreSharedKeyExtension, "
+         "without pre_shared_key, with an own CookieExtension, a spec fingerprinted from a resuming hello - 64 (thorough: 400) "
+         "handshakes each because the cookie position is drawn from crypto/rand - and every predefined fingerprint once (PSK ones "
+         "12 times); every second hello walked by the Go oracle, one Coq oracle case per distinct cookie position. Every produced "
          "Hello.Raw goes to the Coq oracle valid_chb (OracleCase) and to the independent Go walker; every custom spec also to the "
          "model of MarshalClientHelloNoECH (header fields + each extension object as a Coq term), which must reproduce Hello.Raw "
          "byte for byte or return an error when the code does. Distinct by (fingerprint, shape) resp. spec index; non-trivial "
